@@ -166,8 +166,15 @@ def rank_fn(spec):
                         for k_, h_ in list(d.items()):
                             if getattr(h_, '__self__', None) is p:
                                 del d[k_]
+                want = copy.deepcopy(sd)
                 p, kw = precond(model, spec, world)
                 p.load_state_dict(sd, compute_inverses=ev[1])
+                got = p.state_dict()
+                ok_f = all(((want['layers'][n][f] is None) == (got['layers'][n][f] is None)) and
+                           (want['layers'][n][f] is None or (got['layers'][n][f].dtype == want['layers'][n][f].dtype and torch.equal(got['layers'][n][f], want['layers'][n][f])))
+                           for n in want['layers'] for f in ('A', 'G'))
+                ok_s = all(got.get(k_) == v_ for k_, v_ in want.items() if k_ != 'layers') and set(got) == set(want)
+                rec.setdefault('loads', []).append(dict(event=ei, factors_ok=ok_f, scalars_ok=ok_s, steps=p.steps))
             else:
                 raise ValueError(kind)
         rec['final_steps'] = p.steps
